@@ -233,6 +233,9 @@ def handleStats (focus : String) (c : Case) : String := Id.run do
       acc := { acc with mon := acc.mon.push s!"reduced_chi2={fmtF chi2I}≠|r|²/(N-M-P)={fmtF chiE}" }
     if !((sigmaI - chi2I.sqrt).abs ≤ 4.0 * u * sigmaI.abs + 1e-300) then
       acc := { acc with mon := acc.mon.push s!"regression_standard_error≠sqrt(chi2)" }
+    if let some l := c.body.find? (fun l => l.getD 0 "" == "stc" && l.getD 1 "" == "chi2") then
+      if !bitsEq #[parseF (l.getD 2 "")] #[chi2I] then
+        acc := { acc with mon := acc.mon.push "clone:reduced_chi2-differs" }
     -- correspondence with the model
     if let some (.ok ms) := modelStats then
       if ms.degreesOfFreedom != dof then acc := { acc with corr := acc.corr.push "dof" }
@@ -279,6 +282,18 @@ def handleStats (focus : String) (c : Case) : String := Id.run do
     if wellDet then
       for i in [0:d] do
         if !(covI.get i i ≥ 0.0) then acc := { acc with mon := acc.mon.push s!"negative-variance-at-{i}" }
+    -- a CLONE of the statistics object answers every accessor like the original
+    let stcLine (key : String) : Option (Array String) :=
+      c.body.find? fun l => l.getD 0 "" == "stc" && l.getD 1 "" == key
+    if let some l := stcLine "cov" then
+      if !bitsEq (fmatAt l 2).a covI.a then acc := { acc with mon := acc.mon.push "clone:covariance-differs" }
+    for (key, orig) in [("linvar", linI), ("nonlinvar", nonlinI)] do
+      if let some l := stcLine key then
+        acc := { acc with compared := acc.compared + 1 }
+        if l.getD 2 "" == "panic" then
+          acc := { acc with mon := acc.mon.push s!"clone:{key}-panics" }
+        else if !bitsEq (fvecAt l 2) orig then
+          acc := { acc with mon := acc.mon.push s!"clone:{key}-differs-from-the-original({(fvecAt l 2).size}-vs-{orig.size}-entries)" }
     -- the variance accessors are exactly the diagonal segments
     let diag := (Array.range d).map fun i => covI.get i i
     if !bitsEq linI (diag.extract 0 m) then acc := { acc with mon := acc.mon.push "linear_coefficients_variance≠diag[0..M)" }
